@@ -64,6 +64,18 @@ Theorem C04_final_outputs_intact : forall s ops, init_ok s ->
 Proof. exact disk_only_shrinks. Qed.
 Print Assumptions C04_final_outputs_intact.
 
+(* a fork created at run time (cloneFork) starts with exactly the books of its
+   template - every holder, the nil (retain / top-level) holder included; the
+   theorems above then protect its files against those books *)
+Theorem C04_clone_keeps_holders : forall s src new files vals k,
+  get_fork src (s_forks s) = Some k -> get_fork new (s_forks s) = None -> ph k = PRun ->
+  files_ok (k_split k) files vals = true ->
+  exists k', In (new, k') (s_forks (step s (CloneFork src new files vals))) /\
+             fa k' = fa k /\ fp k' = fp k /\ init_fa k' = fa k /\ init_fp k' = fp k /\
+             files0 k' = files /\ disk k' = files.
+Proof. exact clone_keeps_holders. Qed.
+Print Assumptions C04_clone_keeps_holders.
+
 (* ---- non-vacuity: a concrete system meets the hypotheses, and the theorems
    say something there (files really are removed, and only the permitted ones) *)
 Example C04_books_consistent_nonvacuous : init_ok (ex_sys Rolling) /\
@@ -90,3 +102,12 @@ Example C04_args_present_at_start_nonvacuous :
   disk_paths (run (ex_sys Rolling) ex_ops1) = [(0, [1; 2; 4])] /\
   s_done (run (ex_sys Rolling) ex_ops1) = [].
 Proof. split; vm_compute; reflexivity. Qed.
+
+(* a clone of the example fork with a retained file of its own: the file
+   survives the completion of consumer 7 and the final sweep *)
+Example C04_clone_keeps_holders_nonvacuous :
+  disk_paths (run (ex_sys Rolling)
+    ([CloneFork 0 1 [mkFile 11 ChunkFiles 3 [1]; mkFile 12 ChunkFiles 4 [0]] [0; 1];
+      Advance 1; Advance 1; Advance 1; Advance 1; Cache 1] ++ ex_ops2 ++ [PartialKill 1; FinalSweep]))
+  = [(0, [2]); (1, [11])].
+Proof. vm_compute. reflexivity. Qed.
